@@ -61,8 +61,8 @@ func checkWire(out []byte, want []outItem) string {
 
 func TestC16_OutgoingFramesWellFormed(t *testing.T) {
 	rec := evid.For("C16")
-	rec.SetRule("rapid histories of 1..12 submissions over a scripted transport (VerifAttach): Write/AsyncWrite (text/binary, sizes from {0,1,125,126,127,65535,65536,max-1,max,max+1}, max=70000), WriteFrame/AsyncWriteFrame with caller-built frames (AcquireFrame + opcode/FIN; with payload, with empty payload, without SetPayload), inbound pings (auto Pong, 0..125 bytes) and a final peer or local Close; async transport completions inline or parked; one write in flight at a time; oracle = the complete captured byte stream parses with an independent RFC 6455 parser into exactly the submitted frames in order (mask bit, unmasked payload == caller bytes, shortest length encoding, no trailing bytes), over-max => ErrMessageTooBig and nothing written; non-trivial = a frame built after a strictly longer one was released to the pool OR a frame without payload OR >=3 frames flushed by one call; distinct = hash of the history")
-	rec.Assume("one application write in flight at a time (the next submission starts after the previous completion callback); the transport is all-or-error for AsyncWriteAll like the real adapter")
+	rec.SetRule("rapid histories of 1..12 submissions over a scripted transport (VerifAttach): Write/AsyncWrite (text/binary, sizes from {0,1,125,126,127,65535,65536,max-1,max,max+1}, max=70000), WriteFrame/AsyncWriteFrame with caller-built frames (AcquireFrame + opcode/FIN; with payload, with empty payload, without SetPayload), inbound pings (auto Pong, 0..125 bytes) and a final peer or local Close; async transport completions inline or parked; one write in flight at a time; oracle = the complete captured byte stream parses with an independent RFC 6455 parser into exactly the submitted frames in order (mask bit, unmasked payload == caller bytes, shortest length encoding, no trailing bytes), over-max => ErrMessageTooBig and nothing written; non-trivial = a frame built after a strictly longer one was released to the pool OR a frame without payload OR >=3 frames flushed by one call; TestC16_Bursts: 2..9 AsyncWrite/AsyncWriteFrame/AsyncClose submissions and inbound pings (auto Pong joins the queue when the read completes) issued without waiting for the previous completion, transport completions released one at a time by the harness, oracle = wire frames equal the submissions in submission order + every callback once with nil + no overlapping transport write, non-trivial there = >=3 frames queued while a transport write is in flight; distinct = hash of the history")
+	rec.Assume("TestC16_OutgoingFramesWellFormed keeps one application write in flight at a time (TestC16_Bursts lifts that); the transport is all-or-error for AsyncWriteAll like the real adapter")
 	vt.CheckSteps(t, 2000, 12, func(t *rapid.T) {
 		max := 70000
 		ms := memstream.New(nil)
@@ -316,5 +316,126 @@ func TestC16_OutgoingFramesWellFormed(t *testing.T) {
 			cls = append(cls, ">=3-frames-in-one-flush")
 		}
 		rec.Case(strings.Join(trace, ","), noPayload || reuseAfterLonger || flushed3, cls, map[string]any{"ops": trace, "inline_pattern": pattern, "wire_bytes": len(ms.Out)})
+	})
+}
+
+// TestC16_Bursts submits several asynchronous writes without waiting for the previous completion, over a transport
+// whose completions the harness releases one at a time: frames must reach the wire in submission order, each written
+// completely before the next begins, and every callback runs once.
+func TestC16_Bursts(t *testing.T) {
+	rec := evid.For("C16")
+	vt.Check(t, 1500, func(t *rapid.T) {
+		max := 70000
+		ms := memstream.New(nil)
+		pattern := rapid.SliceOfN(rapid.Bool(), 1, 6).Draw(t, "inline")
+		k := 0
+		ms.Inline = func(bool) bool { k++; return pattern[k%len(pattern)] }
+		s, err := newAttached(max, ms)
+		if err != nil {
+			t.Fatalf("attach: %v", err)
+		}
+		var want []outItem
+		var trace []string
+		n := rapid.IntRange(2, 9).Draw(t, "burst")
+		done := make([]int, 0, n+1)
+		errs := make([]error, 0, n+1)
+		maxQueued, closed := 0, false
+		readDone, readArmed := 0, false
+		cb := func() func(error) {
+			i := len(done)
+			done = append(done, 0)
+			errs = append(errs, nil)
+			return func(err error) { done[i]++; errs[i] = err }
+		}
+		for i := 0; i < n && !closed; i++ {
+			kind := rapid.SampledFrom([]string{"write", "write", "write", "frame", "frame", "ping", "close"}).Draw(t, "kind")
+			if kind == "close" && i < n-1 && rapid.IntRange(0, 3).Draw(t, "closeEarly") != 0 {
+				kind = "write"
+			}
+			switch kind {
+			case "write":
+				ln := rapid.OneOf(rapid.IntRange(0, 40), rapid.SampledFrom([]int{0, 125, 126, 300, 65536})).Draw(t, "len")
+				b := make([]byte, ln)
+				for j := range b {
+					b[j] = byte(i*31 + j*7)
+				}
+				s.AsyncWrite(b, websocket.TypeBinary, cb())
+				want = append(want, outItem{op: rfc6455.OpBinary, fin: true, payload: b, what: fmt.Sprintf("burst write #%d (%d bytes)", i, ln)})
+				trace = append(trace, fmt.Sprintf("AsyncWrite#%d(len=%d)", i, ln))
+			case "frame":
+				f := s.AcquireFrame()
+				op := rapid.SampledFrom([]byte{rfc6455.OpText, rfc6455.OpPing, rfc6455.OpPong}).Draw(t, "op")
+				f.SetFIN().SetOpcode(websocket.Opcode(op))
+				ln := rapid.IntRange(0, 60).Draw(t, "flen")
+				b := make([]byte, ln)
+				for j := range b {
+					b[j] = byte(i*13 + j*3)
+				}
+				f.SetPayload(b)
+				s.AsyncWriteFrame(f, cb())
+				want = append(want, outItem{op: op, fin: true, payload: b, what: fmt.Sprintf("burst frame #%d op=%d", i, op)})
+				trace = append(trace, fmt.Sprintf("AsyncWriteFrame#%d(op=%d,len=%d)", i, op, ln))
+			case "ping":
+				// an inbound ping whose automatic Pong joins the queue when the read completes
+				if readArmed && readDone == 0 {
+					trace = append(trace, "ping(skipped: read in flight)")
+					break
+				}
+				p := []byte{byte(i), 0xAA}
+				ms.Feed(rfc6455.Encode(rfc6455.Frame{Fin: true, Opcode: rfc6455.OpPing, Payload: p, LenBytes: -1}))
+				readArmed, readDone = true, 0
+				s.AsyncNextFrame(func(err error, f websocket.Frame) {
+					readDone++
+					if err != nil {
+						t.Fatalf("AsyncNextFrame: %v; trace=%v", err, trace)
+					}
+					if !closed { // pings are only answered while the stream is active
+						want = append(want, outItem{op: rfc6455.OpPong, fin: true, payload: p, what: "auto pong"})
+					}
+					trace = append(trace, "cb:ping-read")
+				})
+				trace = append(trace, fmt.Sprintf("ping#%d+AsyncNextFrame", i))
+			case "close":
+				s.AsyncClose(websocket.CloseNormal, "bye", cb())
+				want = append(want, outItem{op: rfc6455.OpClose, fin: true, payload: rfc6455.ClosePayload(1000, "bye"), what: "local close"})
+				trace = append(trace, fmt.Sprintf("AsyncClose#%d", i))
+				closed = true
+			}
+			if q := s.Pending(); q > maxQueued {
+				maxQueued = q
+			}
+			for d := rapid.SampledFrom([]int{0, 0, 0, 1, 2}).Draw(t, "deliver"); d > 0; d-- {
+				if ms.Deliver() {
+					trace = append(trace, "deliver")
+				}
+			}
+		}
+		ms.DeliverAll(100000)
+		if readArmed && readDone != 1 {
+			t.Fatalf("AsyncNextFrame callback ran %d times; trace=%v", readDone, trace)
+		}
+		if !closed {
+			if err := s.Flush(); err != nil { // a pong queued by the last read, if no write followed it
+				t.Fatalf("final Flush: %v; trace=%v", err, trace)
+			}
+		} else {
+			ms.DeliverAll(100000)
+		}
+		for i := range done {
+			if done[i] != 1 || errs[i] != nil {
+				t.Fatalf("write callback #%d ran %d times with %v; trace=%v", i, done[i], errs[i], trace)
+			}
+		}
+		if ms.OverlapWrites != 0 {
+			t.Fatalf("client started a transport write while another was in flight; trace=%v", trace)
+		}
+		if p := checkWire(ms.Out, want); p != "" {
+			t.Fatalf("%s; trace=%v", p, trace)
+		}
+		cls := []string{"burst"}
+		if maxQueued >= 3 {
+			cls = append(cls, "queued>=3-behind-in-flight")
+		}
+		rec.Case("burst:"+strings.Join(trace, ","), maxQueued >= 3, cls, map[string]any{"ops": trace, "max_queued": maxQueued})
 	})
 }
